@@ -25,6 +25,7 @@ def run(ctx):
     ctx.set_deadline(200 if ctx.tier == "quick" else 3000)
     for rr in vf.run_many(jobs):
         ctx.absorb(rr, "h_queues(unbounded)")
+    wmmlib.tsan_guard(ctx, "unbounded")
     ctx.distinct.update(range(int(ctx.stats.get("complete_executions", 0))))
     ctx.assumptions.append("as C01; additionally: every store to a location is by the previous writer or happens-after it (checked on every store), which makes the per-thread-history state key exact")
     ctx.assumptions.append("liveness verdicts (a fitting record never granted) are C09's; the non-power-of-two maximum corner is recorded there")
